@@ -347,6 +347,33 @@ theorem overlap_eq_vdot [HasConj K] (hc : ConjLaws K) (bra ket : State K)
   rw [amp_eq_of_open hbp, amp_eq_of_open hkp, hc.mul, hf]
   ring
 
+/-! ## `toVec_product` -/
+
+/-- product of the local entries along a configuration -/
+def prodCfg : List (Nat × Nat × (Nat → Nat → K)) → Config → K
+  | [], _ => 1
+  | v :: vs, σ => v.2.2 (σ.headD (0, 0)).1 (σ.headD (0, 0)).2 * prodCfg vs σ.tail
+
+theorem runF_product (vs : List (Nat × Nat × (Nat → Nat → K))) (σ : Config) (v : Nat → K) :
+    runF (vs.map (fun v => (⟨v.1, v.2.1, 1, 1, fun s t _ _ => v.2.2 s t⟩ : Site K))) σ v 0 = v 0 * prodCfg vs σ := by
+  induction vs generalizing σ v with
+  | nil => simp [runF, prodCfg]
+  | cons w ws ih =>
+    simp only [List.map_cons, runF, prodCfg]
+    rw [ih]
+    simp [stepF]
+    ring
+
+/-- **toVec_product** (clause "product states"): `product_mps` / `product_mpo` (bond dimension one) represent the
+tensor product of the local vectors / operators. -/
+theorem amp_product (nr : Nat) (vs : List (Nat × Nat × (Nat → Nat → K))) (σ : Config) :
+    amp (product nr vs) σ = prodCfg vs σ := by
+  rw [amp_eq_of_open (ψ := product nr vs) rfl]
+  unfold product
+  simp only
+  rw [runF_product]
+  simp [e0]
+
 /-! ## sums of MPOs (partial) and statements that are not proved yet
 
 * `measureMpo_sum_partial` below is the linearity of `Env_sum.measure` in the list of operators.
@@ -356,7 +383,6 @@ theorem overlap_eq_vdot [HasConj K] (hc : ConjLaws K) (bra ket : State K)
   - `measureMpo_eq`: `measureMpoAt n bra op ket = Σ_{σ,τ} conj(amp bra σ) · amp op (σ,τ) · amp ket τ` for every `n`,
     and for a periodic operator with `amp` defined by the trace closure `coefPbc`;
   - `toVec_reverseSites`: `amp (reverseSites ψ) σ = amp ψ σ.reverse`;
-  - `toVec_product`: `amp (product nr vs) σ = Π_i vs_i(σ_i)`;
   - zipper / variational compression without truncation (SVD/QR contracts): harness oracle only. -/
 
 theorem measureMpo_sum_partial [HasConj K] (n : Nat) (bra : State K) (op : State K) (ops : List (State K)) (ket : State K) :
